@@ -379,7 +379,12 @@ class _Flips:
 
     def __iter__(self):
         (ui, op, at, fill), lo, hi = self.a
-        _, responses = authentic(ui, op, fill)
+        try:
+            _, responses = authentic(ui, op, fill)
+        except Exception:  # noqa
+            # the un-attacked exchange fails on this tree: one case, which run_case reports as inconclusive
+            yield dict(kind="flip", user=ui, op=op, at=at, fill=fill, bit=lo)
+            return
         n = len(responses[min(at, len(responses) - 1)]) * 8
         for bit in range(lo, min(hi, n)):
             yield dict(kind="flip", user=ui, op=op, at=at, fill=fill, bit=bit)
